@@ -85,12 +85,18 @@ Proof. exact src_auth_legit. Qed.
 Theorem C02_src_acted_on_after_auth : forall bname store async_store h l1 a t, alog (run_src bname store async_store h) = l1 ++ a :: t ->
   match a with ASub q _ | AUnsub q _ | APub q _ _ _ => last_auth t q <> None | _ => True end.
 Proof. exact src_acted_on_after_auth. Qed.
-Theorem C02_src_preauth_reject : forall sup q op body s, ak (conns s q) = None -> op <> 2%Z -> Connection_message_received sup q op body s = BOk false (bad q s).
+Theorem C02_src_preauth_reject : forall store async_store pp q op body s, ak (conns s q) = None -> op <> 2%Z -> Connection_message_received store async_store pp q op body s = BOk false (bad q s).
 Proof. exact src_preauth_reject. Qed.
 Theorem C02_src_unknown_ident_reject : forall pp q i dg s, Connection_authenticate pp q i dg LNone s = BOk false (bad q s).
 Proof. exact src_unknown_ident_reject. Qed.
 Theorem C02_src_wrong_digest_reject : forall pp q i dg r s, dg <> sha1 (nonce (conns s q) ++ r_secret r) -> Connection_authenticate pp q i dg (LRow r) s = BOk false (bad q s).
 Proof. exact src_wrong_digest_reject. Qed.
+
+Theorem C02_src_info_first : forall bname store async_store h q, made (conns (run_src bname store async_store h) q) = true ->
+  exists l, out (conns (run_src bname store async_store h) q) = l ++ [FInfo bname (nonce (conns (run_src bname store async_store h) q))].
+Proof. exact src_info_first. Qed.
+Theorem C02_src_connection_made_is_model : forall bname q n s, made (conns s q) = false -> Connection_connection_made bname q (p_new_conn q n s) = BOk false (do_connect bname q n s).
+Proof. exact Connection_connection_made_eq. Qed.
 
 Print Assumptions C02_info_first.
 Print Assumptions C02_acted_on_after_auth.
@@ -108,3 +114,5 @@ Print Assumptions C02_src_acted_on_after_auth.
 Print Assumptions C02_src_preauth_reject.
 Print Assumptions C02_src_unknown_ident_reject.
 Print Assumptions C02_src_wrong_digest_reject.
+Print Assumptions C02_src_info_first.
+Print Assumptions C02_src_connection_made_is_model.
